@@ -93,6 +93,7 @@ class Ctx:
         else:
             xs = self.s.create_cold_observable(msgs)
         xs._role = role
+        xs._kind = kind
         self.sources.append(xs)
         return xs
 
@@ -231,6 +232,7 @@ def _install():
     _reg("delay", "any", lambda c: A(c.rnd.choice([0, 5, 12])), "time")
     _reg("delay_subscription", "any", lambda c: A(c.rnd.choice([0, 5, 12])), "time")
     _reg("delay_with_mapper", "any", lambda c: A(None, c.cb(c.memo(lambda v: c.trigger()))), "time")
+    _reg("delay_with_mapper_subdelay", "any", lambda c: A(c.trigger(), c.cb(c.memo(lambda v: c.trigger()))), "time", real="delay_with_mapper")
     _reg("timestamp", "any", lambda c: A(), "time")
     _reg("time_interval", "any", lambda c: A(), "time")
     _reg("debounce", "any", lambda c: A(c.rnd.choice([5, 12])), "time")
